@@ -471,7 +471,8 @@ class Run:
             "property_id": self.prop,
             "tier": self.tier,
             "seed": self.seed,
-            "level": "proof",
+            # a run whose proof obligations did not all check is not proof-level evidence (and is reported as a violation)
+            "level": "proof" if cov.get("obligations", 0) >= 1 and cov.get("discharged", 0) == cov.get("obligations", 0) else "exploration",
             "coverage": cov,
             "assumptions": assumptions or [],
             "wall_s": round(time.time() - self.t0, 2),
